@@ -520,6 +520,12 @@ func storedAPIFromSpec(c *ctx, seg segment.Segment, spec sx.V) (bad string) {
 	if id, err := seg.DocID(n); err != nil || id != nil {
 		return fmt.Sprintf("DocID(Count) = %q, %v", id, err)
 	}
+	for _, d := range []uint64{n, n + 1, 1 << 32, 1<<32 + 1, 1 << 63} {
+		calls := 0
+		if err := seg.VisitStoredFields(d, func(string, byte, []byte, []uint64) bool { calls++; return true }); err != nil || calls != 0 {
+			return fmt.Sprintf("VisitStoredFields(%d) beyond Count (%d) made %d callbacks (err %v)", d, n, calls, err)
+		}
+	}
 	for trial := 0; trial < 4; trial++ {
 		var list []string
 		want := roaring.New()
